@@ -201,4 +201,10 @@ func VerifC03LocalWrite() {
 	vstub.Assert(b.OpLog().Len() == 0, "C03 a denied write leaves the log untouched")
 	vstub.Assert(env.Cache.Puts == puts, "C03 a denied write leaves the cache untouched")
 	vstub.Assert(len(b.Index().Get("").([]ipfslog.Entry)) == 0, "C03 a denied write leaves the view untouched")
+	// ... and nothing else: a second attempt is refused the same way (it returns)
+	e2, err2 := b.AddOperation(context.Background(), operation.NewOperation(nil, "ADD", []byte("again")), nil)
+	vstub.Cover("denied-twice")
+	vstub.Assert(err2 != nil && e2 == nil, "C03 a second local write by a non-writer fails with an error too")
+	vstub.Assert(b.OpLog().Len() == 0 && env.Cache.Puts == puts, "C03 repeated denied writes leave log and cache untouched")
+	vstub.Assert(b.ReplicationStatus().GetProgress() == 0 && b.ReplicationStatus().GetMax() == 0, "C03 denied writes leave the replication status untouched")
 }
